@@ -24,7 +24,7 @@ RUNS = {
     'quick': {
         'C01': 6000, 'C02': 6000, 'C05': 6000, 'C06': 6000, 'C07': 6000,
         'C15': 6000, 'C16': 5000, 'C18': 5000, 'C20': 3000,
-        'C03': 6000, 'C04': 3000, 'C08': 6000, 'C13': 1500, 'C14': 1200,
+        'C03': 6000, 'C04': 3000, 'C08': 6000, 'C13': 1500, 'C14': 1600,
         'C17': 192,
     },
     'thorough': {
